@@ -128,4 +128,22 @@ func init() {
 			"goroutine scheduler, clock (ack/ping/idle/write timeouts)":                                                  "simulated (baton scheduler + fake clock)",
 		},
 	}
+
+	props["C19"] = &propCfg{
+		World: "wss", QuickRuns: 160000, ThorRuns: 20000000, QuickSecs: 200, ThorSecs: 1800, Level: "exploration", MinNontriv: 50,
+		Rule: "one case = one seeded simulated connection to the WebSocket subscription server (websocket.HandleWithOptions with the real UniversalProtocolHandler, ExecutorEngine, TimeOutChecker and the graphql-transport-ws or graphql-ws protocol handler): a tape generated client message sequence of 2-9 messages over the protocol alphabet (connection_init with accepted / rejected / no payload, subscribe|start and complete|stop over three ids with reuse, ping/pong, the other protocol's and the server's own message types, unknown and missing types, invalid JSON, JSON that is not a message object, undecodable subscribe payloads, empty frames, duplicated deliveries, connection_terminate) with delays from zero up to beyond the connection init time-out, ending in a client disconnect or silence; scripted executors (queries and subscriptions with 0-3 events, pauses, failures, self-completion, cancellation reported as error or not); randomised keep-alive / update / init time-out / read error time-out knobs, slow client writes; faults: transient and persistent read errors, write errors. Oracle: a reference state machine per protocol run over the recorded history in event order: only message types a server may send; acks, pongs, connection_errors only as answers; data only from the operation started for that id, in executor order, never from a rejected duplicate; exactly one terminal message per operation and nothing after it; no executor before an accepted connection_init; 4400/4401/4408/4409/4429 closes exactly when prescribed (before the next read) and never otherwise; no connection drop without cause; the reader never stops reading, the handler returns when the connection ends, nothing started for the connection outlives it; operations are not cancelled while the client wants them. Non-trivial = at least one operation was started. Distinct = distinct hash of the context-switch sequence.",
+		Assumptions: []string{
+			"the TransportClient is the harness stub (the gobwas based websocket.Client and real sockets are not exercised); executors are scripted stand-ins for ExecutorV2 + engine",
+			"a reply the reader owes (ack, pong, close) is due before it reads the next message; time-outs are compared with 50ms slack on the simulated clock",
+			"valid JSON that is not a message object and subscribe payloads that cannot be decoded may be ignored or answered with 4400: the property does not say which",
+			"after connection_terminate (graphql-ws) and after the read error time-out the running operations owe no terminal message",
+			"baton scheduling serialises execution: pure data races (e.g. the unlocked map iteration in TerminateAllSubscriptions) are invisible",
+		},
+		Components: map[string]string{
+			"websocket.HandleWithOptions, subscription.UniversalProtocolHandler, ExecutorEngine, subscriptionCancellations, TimeOutChecker": "real code, AST-instrumented",
+			"ProtocolGraphQLTransportWSHandler, ProtocolGraphQLWSHandler (readers, writers, event handlers)":                                "real code, AST-instrumented",
+			"subscription.TransportClient (scripted client), ExecutorPool / Executor, InitFunc, net.Conn":                                  "stub (harness)",
+			"goroutine scheduler, clock (init / read error time-outs, keep-alive, update interval)":                                        "simulated (baton scheduler + fake clock)",
+		},
+	}
 }
